@@ -8,7 +8,7 @@ CLAIM = dict(cat="proof", design="§3 C19, Appendix A.1",
         "step is a power of two in [min,max], not larger than requested, divides the remaining time, is the largest such, time strictly increases, never exceeds the end, "
         "a run that ends lands exactly on the end and its steps sum to the interval, stops only when the request is below the minimum, no division by zero, loops terminate. "
         "The model is tied to src/TimeLine.hpp by bit-exact differential execution (extracted model vs. real class) on generated histories on every run. Driver tie on the real binary (task-based RHD to its natural end; legacy RHD where photo-heating pushes the request below the configured minimum): every executed step lies in [configured min, configured max], time never passes the end, a completed run's executed steps sum to the interval (KNOWN FINDING: the drivers never integrate the last step), a run restarted from its final dump takes no step; constructor oracle: the integer limits are the configured ones rounded down to a power-of-two fraction.",
-   note="Trusted: Coq kernel; extraction (ExtrOcamlBasic, ExtrOCamlFloats, ExtrOCamlInt63) + OCaml for the correspondence only; the premise that A*2^k > request is monotone in k "
+   note="Driver ties (no model): executed steps of both hydro drivers within the configured limits, no step after a restart from the final dump, and a legacy run stopped after every step and restarted continues at t + dt with the same number of steps. Trusted: Coq kernel; extraction (ExtrOcamlBasic, ExtrOCamlFloats, ExtrOCamlInt63) + OCaml for the correspondence only; the premise that A*2^k > request is monotone in k "
         "is decided per request by mono_check (soundness proved) rather than proved for all doubles; the end time is reproduced up to the rounding of fl(A*2^63+start).",
    technique="Coq proof by induction over request histories + extracted-model differential correspondence")
 TOP = 1 << 63
